@@ -2,6 +2,7 @@ package sim
 
 import (
 	"fmt"
+	"strings"
 
 	sio "github.com/pip-services3-gox/pip-services3-expressions-gox/io"
 )
@@ -16,7 +17,13 @@ func init() { Register(propC11{}) }
 
 func (propC11) ID() string { return "C11" }
 
-var c11Alphabet = []rune{'a', 'b', '\n', '\r', '\n', '\r', 'é', 0x1F600}
+// ordinary characters, LF, CR (twice: break-heavy), and runes that a byte- or
+// table-driven classifier could confuse with them (low byte 0x0A / 0x0D / 0x00,
+// other Unicode line separators)
+var c11Alphabet = []rune{'a', 'b', '\n', '\r', '\n', '\r', 'é', 0x1F600, 0x010A, 0x010D, 0x1F60A, 0xFF0D, 0x2028, 0x0085, 0x000B, 0x0100}
+
+// content lengths around typical block sizes
+var c11BlockLens = []int{255, 256, 257, 1023, 1024, 1025, 1026, 1100, 2047, 2048, 2049, 2500}
 
 func (propC11) Gen(r *Rand) *Plan {
 	size := r.Size()
@@ -24,11 +31,21 @@ func (propC11) Gen(r *Rand) *Plan {
 	if r.Bool(0.1) {
 		n = r.Range(0, 2)
 	}
+	huge := r.Bool(0.01 * float64(Scale))
+	if huge {
+		n = c11BlockLens[r.Intn(len(c11BlockLens))]
+	}
 	content := make([]rune, n)
 	for i := range content {
 		content[i] = r.PickRune(c11Alphabet)
+		if huge && r.Bool(0.6) {
+			content[i] = r.PickRune([]rune{'\n', '\r', 'a'}) // dense in line breaks
+		}
 	}
 	nops := r.Range(1, 40*size)
+	if huge {
+		nops = r.Range(20, 60)
+	}
 	// biased phases
 	phase := r.Intn(4)
 	var ops []Op
@@ -51,6 +68,12 @@ func (propC11) Gen(r *Rand) *Plan {
 		op := Op{Op: names[r.Weighted(w)]}
 		if op.Op == "unreadmany" {
 			op.I = r.Range(0, n+3)
+			if huge {
+				op.I = r.Range(0, 40)
+			}
+		}
+		if huge && op.Op == "read" && r.Bool(0.3) {
+			op = Op{Op: "readn", I: r.Range(1, n+2)} // get deep into a long content quickly
 		}
 		ops = append(ops, op)
 	}
@@ -132,10 +155,39 @@ func (propC11) Exec(p *Plan, x *Ctx) *Outcome {
 					"op %d (%s): at cursor %d of %q Line/Column = %d/%d, a fresh forward scan reports %d/%d", i, op, k, tp.Text, l, c, fl, fc)
 			}
 		}
+		decoyText := "decoy\r\n" + strings.Repeat("#", (len(tp.Ops)*7)%300) + "\n!"
 		for i, o := range tp.Ops {
 			run.ResetOpSteps()
 			crossed := "-"
+			if i%3 == 1 {
+				// another scanner over other content is constructed and used while this one is alive:
+				// instances must not share their content or position
+				d := sio.NewStringScanner(decoyText)
+				for j := 0; j < 1+i%5; j++ {
+					d.Read()
+				}
+				d.Unread()
+			}
 			switch o.Op {
+			case "readn":
+				bad := false
+				for j := 0; j < o.I && !bad; j++ {
+					got := s.Read()
+					want := modelAt(k)
+					if k <= n {
+						k++
+					}
+					if got != want {
+						out.Violate("cursor-model", fmt.Sprintf("C11/read-value/%s", c11Kclass(k-1, n)),
+							"op %d: bulk Read number %d at cursor %d of a %d-character content returned %d, model says %d", i, j, k-1, n, got, want)
+						bad = true
+					}
+				}
+				if bad {
+					return
+				}
+				crossed = "many"
+				stateChanging++
 			case "read":
 				pl, pc := s.PeekLine(), s.PeekColumn()
 				got := s.Read()
